@@ -17,6 +17,7 @@ EXPLANATION = (
     "normalising division, the same support indexes weights and data rows, and an empty support yields zeros; (D4) in "
     "detect_bad_channels the label stores are ordered 3, then 1, then 2 (2 overrides 1 overrides 3) and "
     "detect_bad_channels_cbin takes the mode across batches (axis 1). Detection quality on recordings is NOT decided."
+    ' (as built) row and donor selectors are evaluated on the finite label domain: the repaired rows are exactly labels {1, 2}; the donors with zero weight are exactly labels {1, 2} (good and outside-brain channels stay donors); both the per-channel loop and a vectorised weight matrix (donors along axis 1) are understood.'
 )
 ASSUMPTIONS = [
     "np.exp(...) > 0; a vector divided by its positive sum sums to one (model table)",
